@@ -299,6 +299,12 @@ func checkC20Message(w *World, r *Report, fn *ssa.Function, emits []*ssa.Call) {
 			continue
 		}
 		seen := map[string]bool{}
+		type caseVerdict struct {
+			ok   bool
+			what string
+		}
+		verdict := map[string]caseVerdict{}
+		var order []string
 		for i, edge := range msg.Edges {
 			facts := factsOnEdge(msg.Block().Preds[i], msg.Block())
 			errNil, isNoResolver, known := false, false, false
@@ -335,12 +341,27 @@ func checkC20Message(w *World, r *Report, fn *ssa.Function, emits []*ssa.Call) {
 			default:
 				name, okk = "resolution failed", what == "const:unknown"
 			}
-			if seen[name] {
+			// several edges may fall into one case: all of them must carry the right value
+			if prev, dup := verdict[name]; dup {
+				if prev.ok && !okk {
+					verdict[name] = caseVerdict{false, what}
+				}
 				continue
 			}
 			seen[name] = true
-			ru.Check("message when "+name, w.Pos(e.Pos()), map[string]string{"resolver succeeded": "ClientIP().String()", "no resolver configured": "RemoteIP().String()", "resolution failed": "\"unknown\""}[name], okk, what)
+			order = append(order, name)
+			verdict[name] = caseVerdict{okk, what}
 		}
+		for _, name := range []string{"resolver succeeded", "no resolver configured", "resolution failed"} {
+			v, present := verdict[name]
+			want := map[string]string{"resolver succeeded": "ClientIP().String()", "no resolver configured": "RemoteIP().String()", "resolution failed": "\"unknown\""}[name]
+			if !present {
+				ru.Fail("message when "+name, w.Pos(e.Pos()), want, "this case is not distinguished: no branch of the message choice is taken under it")
+				continue
+			}
+			ru.Check("message when "+name, w.Pos(e.Pos()), want, v.ok, v.what)
+		}
+		_ = order
 		break // both emission sites share the same message value
 	}
 }
